@@ -218,6 +218,7 @@ def render_fault(inst, L):
     a("    let c = caught();")
     a("    disarm();")
     a("    check_safety(%d, %s, !c);" % (inst.n, arr(live0)))
+    a("    check_usable();")
     # continuation: let go of some / all handles, collect repeatedly
     rel = sorted(held) if inst.cont is None else [i for i in inst.cont if i in held]
     for i in rel:
@@ -399,6 +400,12 @@ def finalizer_family(tier, rng):
                         t = "quick" if (n == 2 or (nm == "lasso" and act == "ResurrectSelf" and len(fin) == 1)) else "thorough"
                         out.append(Inst(n, e, set(), order, fin=fin, fin_act={who: (act, 0)}, family="finmix_%s_%s" % (act.lower(), nm),
                                         props=["C01", "C03", "C05", "C06"], tier=t))
+    # a finalizer (run by a plain Cc::drop, or by the collector) releases the last Cc of a not-yet-finalized child:
+    # the child must be finalized (it is due), dropped and freed there and then
+    out.append(Inst(2, [(0, "s0", 1)], {0}, [("release", 1)], fin_act={0: ("ClearSlot0", 0)}, script="release0", family="rcfin_parent_clearslot0",
+                    props=["C01", "C02", "C03", "C04", "C05", "C12"]))
+    out.append(Inst(3, [(0, "s0", 1), (1, "hid", 2)], {0}, [("release", 1), ("release", 2)], fin_act={0: ("ClearSlot0", 0)}, script="release0", family="rcfin_parent_clearslot0_chain",
+                    props=["C01", "C02", "C03", "C04", "C05", "C12"]))
     # the reference-count path: last handle dropped, finalizer acts (script = release)
     for act in acts:
         out.append(Inst(1, [], {0}, [], fin_act={0: (act, 0)}, script="release0", family="rcfin_%s" % act.lower(),
